@@ -208,11 +208,13 @@ Definition x_watch (C : xcfg) (f : frame) (pos : N) (o : oval) (X : xpart) : xpa
   let ts1 := if init then (ts_of f + 2) mod W64 else ts_of f in
   let ts := (ts1 + (W64 - 1)) mod W64 in                       (* timestamp -= 1 *)
   let c := o_cpu o in
-  let p1 := if wp_cpu C && (negb (w_cpu X =? c)%Z || init) && negb (full (pend X))
+  (* without a free slot the old observation is kept: the next hook with room reports the change *)
+  let store := wp_cpu C && (negb (w_cpu X =? c)%Z || init) && negb (full (pend X)) in
+  let p1 := if store
             then pend X ++ [{| a_ev := {| e_time := ts; e_id := C17_EVENT_ID_WATCH_CPU; e_data := [cpu_word c] |};
                                a_idx := pos |}]
             else pend X in
-  let wc := if wp_cpu C then c else w_cpu X in
+  let wc := if store then c else w_cpu X in
   let v := o_var o in
   let copy := match v_copy X with Some y => y | None => v end in
   let differs := wp_var C && negb (full p1) && negb (v =? copy) in          (* memcmp with the thread's copy *)
@@ -651,8 +653,9 @@ Definition ok_watch_var (v0 : N) (seq : list N) (l : list oitem) : bool :=
 
 (* ---------------------------------------------------------------- specification: -W cpu in the stream
    Plain configuration without threshold, every call recorded, hooks >= 2 ns apart.  Hook by hook:
-     a cpu event is generated iff the value differs from the previous hook's (first hook: always) and
-     fewer than MAX_EVENT events were generated since the last EXIT was written;
+     a cpu event is generated iff the value differs from the last value reported or confirmed (first hook:
+     always) and fewer than MAX_EVENT events were generated since the last EXIT was written - a change that
+     finds the queue full is not forgotten, the next hook with a free slot reports it;
      it is stamped 1 ns before the hook and written right in front of the hook's record - the thread's
      first event is stamped 1 ns after and written right behind the first ENTRY. *)
 Fixpoint wspec_go (es : list xev) (inited : bool) (prev : Z) (np : N) (stk : list N) : list oitem :=
@@ -664,7 +667,7 @@ Fixpoint wspec_go (es : list xev) (inited : bool) (prev : Z) (np : N) (stk : lis
       let w := OE (if inited then t - 1 else t + 1) C17_EVENT_ID_WATCH_CPU [cpu_word c] in
       let rc := OR (t, UFTRACE_ENTRY, RECORD_MAGIC, N.of_nat (length stk), a) in
       (if gen then (if inited then [w; rc] else [rc; w]) else [rc])
-      ++ wspec_go r true c (if gen then np + 1 else np) (a :: stk)
+      ++ wspec_go r true (if gen || (prev =? c)%Z then c else prev) (if gen then np + 1 else np) (a :: stk)
   | XLeave t o :: r =>
       match stk with
       | [] => []
@@ -673,7 +676,7 @@ Fixpoint wspec_go (es : list xev) (inited : bool) (prev : Z) (np : N) (stk : lis
           let gen := (negb inited || negb (prev =? c)%Z) && (np <? C17_MAX_EVENT) in
           let w := OE (t - 1) C17_EVENT_ID_WATCH_CPU [cpu_word c] in
           (if gen then [w] else []) ++ [OR (t, UFTRACE_EXIT, RECORD_MAGIC, N.of_nat (length stk'), a)]
-          ++ wspec_go r true c 0 stk'
+          ++ wspec_go r true (if gen || (prev =? c)%Z then c else prev) 0 stk'
       end
   end.
 Definition wspec (es : list xev) : list oitem := wspec_go es false 0%Z 0 [].
@@ -763,5 +766,12 @@ Fixpoint wrun_legacy (C : xcfg) (l : list (N * oval)) (X : xpart) : list fev :=
   | (t, o) :: r => let X1 := x_watch_legacy C (dummy_frame t) 0 o X in
                    map a_ev (pend X1) ++ wrun_legacy C r (set_pend X1 [])
   end.
+(* (cpu, before the fix of this round): the new cpu number was remembered even when the queue was full and no
+   event could be stored - that change was never reported *)
+Definition x_watch_cpu_legacy (C : xcfg) (f : frame) (pos : N) (o : oval) (X : xpart) : xpart :=
+  let X' := x_watch C f pos o X in
+  {| xs := xs X'; pend := pend X'; w_inited := w_inited X';
+     w_cpu := if negb (wp_cpu C || wp_var C) then w_cpu X else if wp_cpu C then o_cpu o else w_cpu X;
+     v_copy := v_copy X'; g_init := g_init X'; g_val := g_val X'; xout := xout X' |}.
 (* 35535f9: the invalidation was called with mtdp->idx (one above the exiting frame's index):
    [invalidate (n + 1)] at the exit of frame n *)
